@@ -46,6 +46,7 @@ type world struct {
 	trans   *hlib.KMV
 	lastAbs uint64
 
+	xid0              uint32 // value of the id counter when the run started
 	lastReleased      *simrt.Task
 	interleavedInside int
 	concurrent        bool
@@ -459,7 +460,7 @@ func (w *world) onStep(s *simrt.Sim, released *simrt.Task) {
 	}
 	h ^= sum
 	h *= 1099511628211
-	h ^= uint64(common.VerifGetXid() - w.sc.XidStart)
+	h ^= uint64(common.VerifGetXid() - w.xid0)
 	h *= 1099511628211
 	w.states.Add(h)
 	w.trans.Add(simrt.Mix(w.lastAbs, h))
@@ -496,7 +497,7 @@ func (w *world) finish(res simrt.Result) {
 		for _, id := range c.ids {
 			total++
 			if o, dup := seen[id]; dup {
-				w.violate("xid", "duplicate-transaction-id", "", fmt.Sprintf("transaction id %#x was issued twice (tasks %d and %d; %d ids drawn by %d tasks, counter started at %#x)", id, o, c.id, total, len(w.ctx), w.sc.XidStart))
+				w.violate("xid", "duplicate-transaction-id", "", fmt.Sprintf("transaction id %#x was issued twice (tasks %d and %d; %d ids drawn by %d tasks, counter started at %#x)", id, o, c.id, total, len(w.ctx), w.xid0))
 				break
 			}
 			seen[id] = c.id
